@@ -1501,6 +1501,8 @@ fn extract_body(repo: &Path, source: &str, d: &Directive, variant: &str) -> Resu
     }
     // every section must have been consumed: a loop ordinal that no longer exists is a lost anchor
     for k in d.sections.keys() {
+        // (a closure contract whose closure is gone is simply unused: no obligation is lost, the body is still checked against the function's contract)
+        if k.starts_with("closure ") { continue; }
         if k != "sig" && !rw.used_sections.borrow().contains(k) {
             return fail("anchor-lost", format!("selector {}: section '{}' has no anchor in the current body", d.selector, k));
         }
